@@ -189,7 +189,16 @@ pub struct Opt {
 
 pub fn all_opts() -> Vec<Opt> {
     let mut v = vec![];
-    let bases = [(Base::Explicit { at_moof: true }, true), (Base::Explicit { at_moof: false }, false), (Base::Explicit { at_moof: false }, true), (Base::DefaultBaseIsMoof, true), (Base::Neither, true)];
+    let bases = [
+        (Base::Explicit { at_moof: true }, true),
+        (Base::Explicit { at_moof: false }, false),
+        (Base::Explicit { at_moof: false }, true),
+        (Base::DefaultBaseIsMoof, true),
+        (Base::Neither, true),
+        (Base::ExplicitWithMoofFlag { at_moof: false }, true),
+        (Base::ExplicitWithMoofFlag { at_moof: false }, false),
+        (Base::ExplicitWithMoofFlag { at_moof: true }, true),
+    ];
     for (base, data_offset) in bases {
         for fdd in [false, true] {
             for before in [false, true] {
@@ -289,7 +298,7 @@ pub fn run(tier: Tier, seed: u64) -> i32 {
             judge("C09", "1:uniform_options", &m, l);
         });
     }
-    fams.push(json!({"family": "1: one track, F fragments with one shared option tuple (5 base/data-offset forms x frag default x data before/after moof x per-sample durations x cts none/v0/v1 x 5 tfdt forms = 600), every run-length vector, movie default 0/9, 32/64-bit moof header", "F_max": fmax, "run_max": rmax, "movies": f1}));
+    fams.push(json!({"family": "1: one track, F fragments with one shared option tuple (8 base/data-offset forms (incl. explicit base together with the default-base-is-moof flag) x frag default x data before/after moof x per-sample durations x cts none/v0/v1 x 5 tfdt forms = 960), every run-length vector, movie default 0/9, 32/64-bit moof header", "F_max": fmax, "run_max": rmax, "movies": f1}));
 
     // Family 2: one track, two fragments, options chosen independently per fragment (all pairs)
     let mut items = vec![];
